@@ -20,8 +20,9 @@ type reuseStep struct {
 	Kind  string `json:"kind"`  // parse | parseND | edit | serialize | deserialize
 	Input []byte `json:"input"` // document text for parse steps
 	Copy  bool   `json:"copy"`
-	Slot  int    `json:"slot"` // pool slot whose object is passed as reuse / destination / source (-1: none)
-	Ser   int    `json:"ser"`  // serializer slot
+	NoOpt bool   `json:"noopt"` // call without any option (the documented default is to copy strings)
+	Slot  int    `json:"slot"`  // pool slot whose object is passed as reuse / destination / source (-1: none)
+	Ser   int    `json:"ser"`   // serializer slot
 	Mode  int    `json:"mode"`
 	Edit  int    `json:"edit"` // edit selector
 }
@@ -75,9 +76,14 @@ func c15Check(c c15Case) error {
 			in := append([]byte(nil), st.Input...)
 			var got *simdjson.ParsedJson
 			var gerr error
-			if nd {
+			switch {
+			case st.NoOpt && nd:
+				got, gerr = simdjson.ParseND(in, reuse)
+			case st.NoOpt:
+				got, gerr = simdjson.Parse(in, reuse)
+			case nd:
 				got, gerr = simdjson.ParseND(in, reuse, simdjson.WithCopyStrings(st.Copy))
-			} else {
+			default:
 				got, gerr = simdjson.Parse(in, reuse, simdjson.WithCopyStrings(st.Copy))
 			}
 			if (ferr == nil) != (gerr == nil) {
@@ -114,8 +120,8 @@ func c15Check(c c15Case) error {
 			if _, err := tapeCheck(got, true); err != nil {
 				return fmt.Errorf("%s: tape format: %v", where, err)
 			}
-			if st.Copy {
-				// copy mode (asked for explicitly here; it is also the default): the caller may recycle its input buffer at once
+			if st.Copy || st.NoOpt {
+				// copy mode (asked for explicitly, or by default when no option is given): the caller may recycle its input buffer at once
 				for k := range in {
 					in[k] = 0xff
 				}
@@ -375,6 +381,10 @@ func TestC15_Histories(t *testing.T) {
 					st.Input = append(append(append([]byte(nil), st.Input...), '\n'), st.Input...)
 				}
 				st.Copy = rapid.Bool().Draw(t, "copy")
+				st.NoOpt = rapid.IntRange(0, 2).Draw(t, "noopt") == 0
+				if st.NoOpt {
+					st.Copy = true // the reference call and the bookkeeping use the default
+				}
 				classes[cl] = true
 				invalid := strings.Contains(cl, "invalid")
 				if prevFailed && !invalid && st.Slot >= 0 {
